@@ -25,7 +25,7 @@ def parseInts (ts : List String) : Option (List Int) := ts.mapM intOf
 def parseNats (ts : List String) : Option (List Nat) := ts.mapM natOf
 
 /-- `def` line: returns the model outcome tag and the dictionary. -/
-def handleDef (toks : List String) : String × Option (String × DictM) :=
+def handleDef (fx : Fixes) (toks : List String) : String × Option (String × DictM) :=
   match toks with
   | name :: rest =>
     let r : Option (Outcome DictM) := do
@@ -35,7 +35,7 @@ def handleDef (toks : List String) : String × Option (String × DictM) :=
       let unk ← hexField rest "UNK"
       if kind = 0 then
         let matrix ← hexField rest "MATRIX"
-        pure (buildMatrixDict lex matrix chardef unk)
+        pure (buildMatrixDict fx lex matrix chardef unk)
       else
         -- raw/dual: the connector's cost table is taken from the implementation's dump
         match rest.dropWhile (· ≠ "IMPL") with
@@ -43,7 +43,7 @@ def handleDef (toks : List String) : String × Option (String × DictM) :=
           let nr ← natOf nr
           let nl ← natOf nl
           let cs ← parseInts costs
-          pure (buildDictWithConn lex chardef unk nr nl cs)
+          pure (buildDictWithConn fx lex chardef unk nr nl cs)
         | _ :: tag :: _ => if tag = "panic" then pure .panic else pure .err
         | _ => none
     match r with
